@@ -510,11 +510,32 @@ Fixpoint pairs_data (a : Z) (l : list (pval * pval)) : option (list pval) :=
 Definition s_new_msg (db : bool) (s : st) (def : string) (id : pval) (actn : Z) (tg : pval) (args : pval) : pmsg :=
   PStr "/s_new" :: PStr def :: id :: PInt actn :: tg :: oal db s (args_or_empty args).
 
+(* accessors evaluated by the caller: every as_map() among the arguments is of a bus that still has its index *)
+Fixpoint pv_maps_ok (s : st) (v : pval) : bool :=
+  match v with
+  | PMap i => match busindex_of s i with PInt _ => true | _ => false end
+  | PList l => (fix go (l : list pval) := match l with [] => true | x :: t => pv_maps_ok s x && go t end) l
+  | PTuple l => (fix go (l : list pval) := match l with [] => true | x :: t => pv_maps_ok s x && go t end) l
+  | PDict l => (fix go (l : list (pval * pval)) := match l with [] => true | (k, x) :: t => pv_maps_ok s k && pv_maps_ok s x && go t end) l
+  | _ => true
+  end.
+Definition op_args (o : op) : list pval :=
+  match o with
+  | OSynth _ _ _ args _ _ => [args]
+  | ONodeSet _ a => a
+  | ONodeSetn _ a => a
+  | ONodeMap _ _ a => a
+  | ONodeMapn _ _ a => a
+  | ONodeFill _ a => a
+  | _ => []
+  end.
+Definition maps_ok (s : st) (o : op) : bool := forallb (pv_maps_ok s) (op_args o).
+
 Section Step.
 Variable V : variant.
 
-(* the object-level semantics of one op (everything except the routing of the sends) *)
-Definition obj_step (s : st) (o : op) : res :=
+(* the object-level semantics of one op (everything except the routing of the sends), once its arguments exist *)
+Definition obj_step_core (s : st) (o : op) : res :=
   match o with
   | OSynth c nid def args tg act =>
     match c with
@@ -967,6 +988,11 @@ Definition obj_step (s : st) (o : op) : res :=
   | ORaw m => ok s [SMsg m]
   | OBindEnter | OBindExit | OBindRaise _ | OSync _ => ok s []
   end.
+
+(* The caller evaluates the arguments first.  bus.as_map() of a bus that was freed raises BusException (free() resets
+   the cached map symbol): then the call does not happen at all. *)
+Definition obj_step (s : st) (o : op) : res :=
+  if maps_ok s o then obj_step_core s o else fail s EOther.
 
 (* BundleNetAddr.__exit__ on normal exit: _send_last_bundle -> save_addr.send_clumped_bundles *)
 Definition flush (collected : list pmsg) : list send :=
